@@ -648,6 +648,30 @@ func cmdCheck(args []string) {
 				}
 			}
 		}
+		// --- paths that exhausted the budget: for termination / complexity
+		// properties the native run of the same input is the judge (it fails its
+		// own assertion, overflows the stack, or does not finish in time)
+		if opts["bound_replay"] == 1 && len(ex.BoundPaths) > 0 {
+			var bvecs [][][2]interface{}
+			for _, bp := range ex.BoundPaths {
+				if len(bvecs) < 6 {
+					bvecs = append(bvecs, bp.Vector)
+				}
+			}
+			outs := rp.run(name, params, bvecs, 30*time.Second)
+			for i, o := range outs {
+				if o.Result == "violation" || o.Result == "panic" || o.Result == "crash" {
+					v := interp.Violation{AssertID: "budget-exceeded", Detail: ex.BoundPaths[i].Msg, Vector: bvecs[i], Notes: ex.BoundPaths[i].Notes}
+					shape := shapeString(v.Vector)
+					input := inputString(v.Vector)
+					rep.Violations++
+					totalViol++
+					path := writeReplay(*prop, name, *tier, seed, params, v, o, shape, input)
+					violLines = append(violLines, fmt.Sprintf("VIOLATION property=%s replay=%s", *prop, path))
+					fmt.Printf("  violated budget-exceeded in %s: shape=%s input=%q engine=%s native=%s/%s %s\n", name, shape, input, v.Detail, o.Result, o.Assert, o.Detail)
+				}
+			}
+		}
 		rep.WallS = time.Since(hstart).Seconds()
 		rep.Functions = len(ex.FuncsSeen)
 		for f := range ex.FuncsSeen {
